@@ -187,6 +187,10 @@ public:
     {
       throw KVStoreException("TTL must be greater than zero");
     }
+    if (ttl.count() > kMaxTtlSeconds)
+    {
+      throw KVStoreException("TTL too large");
+    }
     validateKeyValue(key, value);
 
     const auto expiry = std::chrono::system_clock::now() + ttl;
@@ -363,6 +367,10 @@ public:
     if (ttl.count() <= 0)
     {
       throw KVStoreException("TTL must be greater than zero");
+    }
+    if (ttl.count() > kMaxTtlSeconds)
+    {
+      throw KVStoreException("TTL too large");
     }
     if (batch.empty())
       return;
@@ -809,6 +817,10 @@ private:
   // Upper bound (~200 years in ms) for the validated TTL wheel range, chosen so
   // steady_clock arithmetic (now + delay, in ns) cannot overflow int64 (KTP-11).
   static constexpr std::int64_t kMaxTtlRangeMs = 6'311'520'000'000LL;
+
+  // Largest relative TTL accepted by set()/setBatch() (100 years): now() + ttl is computed in
+  // int64 nanoseconds and must not overflow.
+  static constexpr std::int64_t kMaxTtlSeconds = 3'155'760'000LL;
 
   // Plausibility window for a decoded absolute expiry (epoch ms). Values outside
   // it are treated as corruption on replay (KTP-11 sanity bound). The ceiling is
